@@ -323,6 +323,38 @@ impl<
     }
 }
 
+#[cfg(transparencies_stretto_verif)]
+impl<
+        V: Send + Sync + Clone + 'static,
+        U: UpdateValidator<Value = V>,
+        SS: BuildHasher + Clone + 'static,
+        ES: BuildHasher + Clone + 'static,
+    > ShardedMap<V, U, SS, ES>
+{
+    pub(crate) fn verif_entries(&self) -> Vec<crate::verif::StoreEntry<V>> {
+        let mut out = Vec::new();
+        for shard in self.shards.iter() {
+            let data = shard.read();
+            for (_, item) in data.iter() {
+                let (ttl, created_at) = item.expiration.verif_parts();
+                out.push(crate::verif::StoreEntry {
+                    index: item.key,
+                    conflict: item.conflict,
+                    value: item.value.get().clone(),
+                    ttl,
+                    created_at,
+                });
+            }
+        }
+        out.sort_unstable_by_key(|e| e.index);
+        out
+    }
+
+    pub(crate) fn verif_buckets(&self) -> Vec<(i64, Vec<(u64, u64)>)> {
+        self.em.verif_buckets()
+    }
+}
+
 unsafe impl<V: Send + Sync + 'static, U: UpdateValidator<Value = V>, SS: BuildHasher, ES: BuildHasher>
     Send for ShardedMap<V, U, SS, ES>
 {
